@@ -436,6 +436,7 @@ func ruleErrorsRecorded(c *Ctx) {
 // skipping a block of text) is outside everything L-NEWLINE / L-POS establish: nothing guarantees that it counts
 // the line breaks it consumes, so every later token can carry a wrong line.
 func ruleLexerCursor(c *Ctx) {
+	ruleLexerInput(c)
 	ppk := c.P.SSAPkg("internal/parser")
 	var next *ssa.Function
 	for _, f := range c.P.ModuleFuncs() {
